@@ -40,17 +40,89 @@ pub fn check_text(text: &str, origin: &Value, stats: &mut Stats) -> Result<Optio
                         "trailing-whitespace"
                     } else if has_multiline_block && only_indent && f::atom_stream(&once) == f::atom_stream(&next) {
                         "block-comment-continuation-indent"
-                    } else if only_blank {
-                        "blank-lines"
-                    } else if only_indent {
-                        "indentation"
-                    } else if f::atom_stream(&once) == f::atom_stream(&next) {
-                        "line-breaks"
                     } else {
-                        "content"
+                        // same code tokens (punctuation and parentheses included) ⇒ only the layout moved;
+                        // same atoms but other tokens ⇒ a second round of parenthesis / pun canonicalisation
+                        let code = |t: &str| scan::tokens(t).iter().map(|k| t[k.start..k.end].to_string()).collect::<Vec<_>>();
+                        let same_tokens = code(&once) == code(&next);
+                        let same_atoms = f::atom_stream(&once) == f::atom_stream(&next);
+                        // a text-block comment (`--|`) that pass 1 had to push onto a line of its own after an operator:
+                        // the line before it ends in a blank and the comment is not indented; pass 2 reads it as an
+                        // own-line comment and lays the construct out differently (one root cause, listed)
+                        let text_block_after_operator = {
+                            let l: Vec<&str> = once.lines().collect();
+                            let op_then_comment = |line: &str| {
+                                // code ending in an operator, then a line / text-block comment on the same line
+                                match [line.find("--"), line.find("/-")].iter().flatten().min().copied() {
+                                    | Some(i) => {
+                                        let code = line[..i].trim_end();
+                                        [":", "=", "=>", "<-", "->", ".", "*", "::", "|"].iter().any(|op| code.ends_with(op)) && !code.is_empty()
+                                    }
+                                    | None => false,
+                                }
+                            };
+                            l.windows(2).any(|w| w[0].ends_with(' ') && w[1].trim_start().starts_with("--|")) || l.iter().any(|x| op_then_comment(x))
+                        };
+                        // differing lines all inside multi-line block comments
+                        let in_block_comment_only = same_len && {
+                            let mut inside = vec![false; la.len()];
+                            let mut line_start = 0usize;
+                            let spans: Vec<(usize, usize)> = scan::comments(&once).iter().filter(|c| matches!(c.kind, scan::CommentKind::Block) && once[c.start..c.end].contains('\n')).map(|c| (c.start, c.end)).collect();
+                            for (i, l) in la.iter().enumerate() {
+                                let (s0, e0) = (line_start, line_start + l.len());
+                                inside[i] = spans.iter().any(|(cs, ce)| *cs < e0 && s0 < *ce);
+                                line_start = e0 + 1;
+                            }
+                            la.iter().zip(lb.iter()).enumerate().all(|(i, (x, y))| x == y || inside[i])
+                        };
+                        // the first differing line touches a multi-line block comment (its continuation lines are
+                        // re-indented on every pass, which can also change where the rest of the line breaks)
+                        let at_block_comment = {
+                            let i = la.iter().zip(lb.iter()).position(|(x, y)| x != y).unwrap_or(0);
+                            let mut line_start = 0usize;
+                            let mut hit = false;
+                            let spans: Vec<(usize, usize)> = scan::comments(&once).iter().filter(|c| matches!(c.kind, scan::CommentKind::Block) && once[c.start..c.end].contains('\n')).map(|c| (c.start, c.end)).collect();
+                            for (k, l) in la.iter().enumerate() {
+                                let (s0, e0) = (line_start, line_start + l.len());
+                                if k + 1 >= i && k <= i + 1 && spans.iter().any(|(cs, ce)| *cs <= e0 && s0 <= *ce) {
+                                    hit = true;
+                                }
+                                line_start = e0 + 1;
+                            }
+                            hit
+                        };
+                        match (same_tokens, same_atoms) {
+                            | (true, _) if in_block_comment_only || at_block_comment => "block-comment-continuation-indent",
+                            | (true, _) if text_block_after_operator => "layout-only:comment-after-operator",
+                            | (true, _) if only_blank => "layout-only:blank-lines",
+                            | (true, _) if only_indent => "layout-only:indentation",
+                            | (true, _) => "layout-only:line-breaks",
+                            | (false, true) => "second-round-of-parenthesis-or-pun-canonicalisation",
+                            | (false, false) => "content",
+                        }
                     };
+                    // layout-only differences are keyed by the joint at which the two passes part: the token that ends
+                    // the shorter of the first differing lines, and whether pass 2 splits there or joins
+                    let class: String = if matches!(class, "layout-only:line-breaks" | "layout-only:indentation" | "layout-only:blank-lines") {
+                        let i = la.iter().zip(lb.iter()).position(|(x, y)| x != y).unwrap_or(0);
+                        let (a, b) = (la.get(i).copied().unwrap_or("").trim(), lb.get(i).copied().unwrap_or("").trim());
+                        let last = |l: &str| l.split_whitespace().last().unwrap_or("").chars().rev().take(2).collect::<String>().chars().rev().collect::<String>();
+                        if a != b && a.starts_with(b) {
+                            format!("{class}:pass2-splits-after[{}]", last(b))
+                        } else if a != b && b.starts_with(a) {
+                            { let _ = last(a); format!("{class}:pass2-joins") }
+                        } else {
+                            format!("{class}:other")
+                        }
+                    } else {
+                        class.to_string()
+                    };
+                    let class = class.as_str();
                     if std::env::var_os("VERIF_SURVEY").is_some() {
                         stats.count(&format!("survey-not-idempotent:{class}"));
+                        if class.starts_with("layout-only") && class != "layout-only:comment-after-operator" && text.len() < 100000 {
+                            eprintln!("SURVEY14 {class} ORIGIN {} DIFF {}", origin, f::first_diff(&la, &lb));
+                        }
                         return Ok(None);
                     }
                     let sig = format!("not-idempotent[{class}]");
@@ -108,7 +180,7 @@ pub fn run(ctx: &Ctx) -> Report {
         "sources as C12 (all starting layouts, widths 1…200, layout policies incl. preserve); oracle: fmt∘fmt = fmt \
          byte-wise, exactly one trailing newline, fmtⁿ (n ≤ 4) never cycles; pairs (x, x′) that differ only in \
          horizontal spacing within lines must format to the same text; CLI: `fmt --check` exits 1 and prints the \
-         path ⇔ `fmt` then changes the bytes, and after `fmt`, `fmt --check` exits 0; non-trivial = fmt(x) ≠ x and \
+         path ⇔ `fmt` then changes the bytes, and after `fmt`, `fmt --check` exits 0; with several files in one invocation the verdict covers all of them in every argument order; non-trivial = fmt(x) ≠ x and \
          the case has a directive or a comment; distinct by text hash",
     );
     let bases = Bases::load(ctx);
@@ -194,6 +266,57 @@ pub fn run(ctx: &Ctx) -> Report {
                 stats.nontrivial(hash_of(text));
             }
         }
+        Ok(())
+    });
+    report.absorb(r);
+    // several files in one invocation: the verdict is about all of them, in any argument order
+    let dir2 = ctx.fresh_dir("c14multi");
+    let picks: Vec<usize> = (0..bases.corpus.len()).step_by(ctx.tier.pick(11, 3)).collect();
+    let r = run_items(ctx, "cli-multi", picks, |i, stats| {
+        let (p, s) = &bases_ref.corpus[*i];
+        // a formatted copy (via fmt itself) and an unformatted one of the same source
+        let formatted = dir2.join(format!("f{i}.zy"));
+        let unformatted = dir2.join(format!("u{i}.zy"));
+        let other = dir2.join(format!("g{i}.zy"));
+        std::fs::write(&formatted, s).unwrap();
+        let (code, _, _) = f::run_cli(ctx, &["fmt", formatted.to_str().unwrap()], b"");
+        if code != 0 {
+            return Ok(());
+        }
+        let canonical = std::fs::read_to_string(&formatted).unwrap_or_default();
+        std::fs::write(&other, &canonical).unwrap();
+        let messy = format!("  {}", canonical.replace(" = ", "  =  "));
+        std::fs::write(&unformatted, &messy).unwrap();
+        // does fmt change the messy one at all?
+        let probe = dir2.join(format!("p{i}.zy"));
+        std::fs::write(&probe, &messy).unwrap();
+        let (pc, _, _) = f::run_cli(ctx, &["fmt", probe.to_str().unwrap()], b"");
+        if pc != 0 || std::fs::read_to_string(&probe).unwrap_or_default() == messy {
+            return Ok(());
+        }
+        let (fp, up, op) = (formatted.to_str().unwrap(), unformatted.to_str().unwrap(), other.to_str().unwrap());
+        for (order, args, want) in [
+            ("unformatted first", vec!["fmt", "--check", up, fp], 1),
+            ("unformatted last", vec!["fmt", "--check", fp, up], 1),
+            ("unformatted in the middle", vec!["fmt", "--check", fp, up, op], 1),
+            ("all formatted", vec!["fmt", "--check", fp, op], 0),
+        ] {
+            stats.eval();
+            let (code, out, _) = f::run_cli(ctx, &args, b"");
+            let listed = String::from_utf8_lossy(&out).contains(up);
+            if code != want || (want == 1 && !listed) {
+                return Err(Fail::new(
+                    "check-verdict-over-several-files",
+                    format!("exit {want}{}: `fmt` would modify exactly the unformatted file", if want == 1 { " and the unformatted path listed" } else { "" }),
+                    format!("{order}: exit {code}, unformatted path listed: {listed}"),
+                )
+                .with(json!({"base": p, "order": order})));
+            }
+            if std::fs::read_to_string(&unformatted).unwrap_or_default() != messy {
+                return Err(Fail::new("check-modified-file", "`fmt --check` never writes", "file changed").with(json!({"base": p})));
+            }
+        }
+        stats.nontrivial(hash_of(&messy));
         Ok(())
     });
     report.absorb(r);
